@@ -10,6 +10,10 @@ Session `qparser` (C14).  Strings travel as `u<hex>.<hex>…` (code points; `u` 
   exec <query>     ->  `ok` (tree executed without reaching NotNode.executeQuery) |
                        `err QueryError` | `err ParseError`
   tok <query>      ->  the token list (debugging)
+  pparse <query>   ->  as `parse`, on ONE long-lived `QueryParser` instance; the answer is also kept
+  held             ->  all answers of the `pparse` commands so far, joined by ` ; ` (what the caller still holds:
+                       a later parse on the same parser must not change the tree or the ignored list handed
+                       out for an earlier query - parses are values here)
 
 `isGlob` is the lexicon's `"*" in word or "?" in word`.  A query whose ATOM token has no
 `cfg terms` line answers `missing-terms`.
@@ -20,6 +24,7 @@ open Hyp.QP
 structure St where
   spaces : List Nat := []
   terms : List (Str × List Str) := []
+  held : List String := []
 
 def hexDigit? (c : Char) : Option Nat :=
   if '0' ≤ c ∧ c ≤ '9' then some (c.toNat - '0'.toNat)
@@ -96,6 +101,16 @@ def step (st : St) (toks : List String) : St × String :=
       match parseQuery (lexOf st) (spaceOf st) q with
       | .ok (t, ig) => (st, "ok " ++ showTree t ++ " ign=[" ++ " ".intercalate (ig.map showStr) ++ "]")
       | .error _ => (st, "err ParseError")
+  | ["pparse", q] =>
+    match str? q with
+    | none => (st, "bad-op")
+    | some q =>
+      if missing st q then (st, "missing-terms") else
+      let out := match parseQuery (lexOf st) (spaceOf st) q with
+        | .ok (t, ig) => "ok " ++ showTree t ++ " ign=[" ++ " ".intercalate (ig.map showStr) ++ "]"
+        | .error _ => "err ParseError"
+      ({ st with held := st.held ++ [out] }, out)
+  | ["held"] => (st, " ; ".intercalate st.held)
   | ["check", q] =>
     match str? q with
     | none => (st, "bad-op")
